@@ -377,7 +377,15 @@ func init() {
 				other.emb = gen.EmbedX(g, c.L("emb:x"), kind, encodeParts(cand.lys, false), true)
 				ro := decodeFile(c, e, other.file(big))
 				c.Inc("probe:other-surroundings-compared")
-				if ro.Panic != nil || ro.Canon() != rc.Canon() {
+				differs := ro.Panic != nil || ro.Canon() != rc.Canon()
+				if differs && nikon && ro.Panic == nil && ro.Err == rc.Err {
+					// the image type of a Nikon payload follows the maker note, not the container (see
+					// above): it is left out of this comparison as well
+					if p, _, _ := harness.Diff(rc.Fields, ro.Fields, skip); p == "" {
+						differs = false
+					}
+				}
+				if differs {
 					path, a, b := harness.Diff(rc.Fields, ro.Fields, nil)
 					c.Fail("mismatch", e.Name, gen.ContainerNames[kind]+":surroundings:"+path, fmt.Sprintf("same payload, different surroundings: %s vs %s (err %s / %s)", a, b, rc.Err, ro.Err))
 					if c.Describe && len(other.emb.Bytes) <= 700 {
